@@ -46,11 +46,11 @@ def cyTest (V : Variant) (T : Tab) : Pat → Val → Log → R Ch
        | some kvs =>
          if !ks.isEmpty && kvs.length < ks.length then .fail lg
          else
-           match cyExtract (logsGet v) kvs (fixed ++ vars) lg with
+           match cyExtract (logsGet v) (mapView v) (fixed ++ vars) lg with
            | .fail l => .fail l
            | .err e l => .err e l
            | .ok _ l0 =>
-             match (ks.map (fun k => lookupKey kvs (k.val T))).mapM id with
+             match (ks.map (fun k => lookupKey (mapView v) (k.val T))).mapM id with
              | none => .err .crash l0
              | some vals =>
                (match cyTestList V T false ps (ks.map Key.isLit) vals l0 with
@@ -142,7 +142,7 @@ def cyAssign (V : Variant) (T : Tab) : Pat → Val → Ch → Env
     (match mapItems v with
      | none => []
      | some kvs =>
-       match (ks.map (fun k => lookupKey kvs (k.val T))).mapM id with
+       match (ks.map (fun k => lookupKey (mapView v) (k.val T))).mapM id with
        | none => []
        | some vals =>
          cyAssignList V T ps (ks.map Key.isLit) vals (chKids2 ch).1
